@@ -139,6 +139,74 @@ theorem readFull_ok_length {n : Nat} {bs a r : Bytes} (h : readFull n bs = .ok (
         · simp; omega
         · simp
 
+/-! ### `readN`: chunked reading behaves like one exact read -/
+
+theorem readFull_le {n : Nat} {bs : Bytes} (h0 : 0 < n) (h : n ≤ bs.length) : readFull n bs = .ok (bs.take n, bs.drop n) := by
+  unfold readFull
+  have h1 : ¬ n = 0 := by omega
+  have h2 : ¬ bs.length = 0 := by omega
+  have h3 : ¬ bs.length < n := by omega
+  simp only [h1, h2, h3, if_false]
+
+theorem readFull_short {n : Nat} {bs : Bytes} (h : bs.length < n) : ∃ e, readFull n bs = .error e := by
+  unfold readFull
+  have h1 : ¬ n = 0 := by omega
+  simp only [h1, if_false]
+  split
+  · exact ⟨_, rfl⟩
+  · exact ⟨_, rfl⟩
+
+/-- enough input: the chunks add up to exactly the first `n` bytes -/
+theorem readN_le : ∀ (n : Nat) (bs : Bytes), n ≤ bs.length → readN n bs = .ok (bs.take n, bs.drop n) := by
+  intro n
+  induction n using Nat.strongRecOn with
+  | _ n ih =>
+    intro bs h
+    rw [readN]
+    by_cases h0 : n = 0
+    · subst h0; simp
+    · have hc : 0 < chunk := by decide
+      have hw : 0 < min n chunk := by omega
+      simp only [h0, if_false]
+      rw [readFull_le hw (by omega)]
+      simp only
+      rw [ih (n - min n chunk) (by omega) (bs.drop (min n chunk)) (by simp; omega)]
+      simp only [List.drop_drop]
+      have e1 : min n chunk + (n - min n chunk) = n := by omega
+      rw [← List.take_add, e1]
+
+/-- input shorter than declared: an error (from the first chunk that cannot be filled) -/
+theorem readN_short : ∀ (n : Nat) (bs : Bytes), bs.length < n → ∃ e, readN n bs = .error e := by
+  intro n
+  induction n using Nat.strongRecOn with
+  | _ n ih =>
+    intro bs h
+    rw [readN]
+    have h0 : ¬ n = 0 := by omega
+    have hc : 0 < chunk := by decide
+    simp only [h0, if_false]
+    by_cases hs : bs.length < min n chunk
+    · obtain ⟨e, he⟩ := readFull_short hs
+      rw [he]; exact ⟨e, rfl⟩
+    · rw [readFull_le (by omega) (by omega)]
+      simp only
+      obtain ⟨e, he⟩ := ih (n - min n chunk) (by omega) (bs.drop (min n chunk)) (by simp; omega)
+      rw [he]; exact ⟨e, rfl⟩
+
+theorem readN_append (p rest : Bytes) : readN p.length (p ++ rest) = .ok (p, rest) := by
+  rw [readN_le _ _ (by simp)]; simp
+
+theorem readN_take (p : Bytes) (j : Nat) (hj : j < p.length) : ∃ e, readN p.length (p.take j) = .error e :=
+  readN_short _ _ (by rw [List.length_take]; omega)
+
+theorem readN_ok_length {n : Nat} {bs a r : Bytes} (h : readN n bs = .ok (a, r)) : a.length = n ∧ bs = a ++ r := by
+  by_cases hl : n ≤ bs.length
+  · rw [readN_le _ _ hl] at h
+    cases h
+    exact ⟨by simp; omega, by simp⟩
+  · obtain ⟨e, he⟩ := readN_short n bs (by omega)
+    rw [he] at h; cases h
+
 /-! ### Splitting a truncated concatenation -/
 
 theorem take_append_lt {s t : Bytes} {j : Nat} (h : j < s.length) : (s ++ t).take j = s.take j := by
@@ -203,36 +271,34 @@ def mkHeader (blocks : List (List (Bytes × Bytes))) (sync : Bytes) : Bytes :=
 /-- the map these blocks denote: a later entry for the same key wins -/
 def metaOf (blocks : List (List (Bytes × Bytes))) : Meta := blocks.flatten.reverse
 
-def SmallEntry (kv : Bytes × Bytes) : Prop := kv.1.length ≤ maxAlloc ∧ kv.2.length ≤ maxAlloc
+/-- the largest length a zig-zag varint can declare (`math.MaxInt64`) -/
+def maxLen : Nat := 2 ^ 63 - 1
 
-theorem inRange_of_le_maxAlloc {n : Nat} (h : n ≤ maxAlloc) : inRange 64 (n : Int) := by
+def SmallEntry (kv : Bytes × Bytes) : Prop := kv.1.length ≤ maxLen ∧ kv.2.length ≤ maxLen
+
+theorem inRange_of_le_maxLen {n : Nat} (h : n ≤ maxLen) : inRange 64 (n : Int) := by
   apply inRange_of_nat_lt
-  have : maxAlloc < 2 ^ 63 := by decide
+  have : maxLen < 2 ^ 63 := by decide
   omega
 
-theorem makeBytes_ok {n : Nat} (h : n ≤ maxAlloc) : makeBytes (n : Int) = .ok () := by
-  unfold makeBytes
-  have h1 : ¬ ((n : Int) < 0) := by omega
-  have h2 : ¬ ((n : Int).toNat > maxAlloc) := by simp; omega
-  simp only [h1, h2, if_false]
-
-theorem readBytes_accepts (ek : ErrKind) (b : Bytes) (hb : b.length ≤ maxAlloc) :
+theorem readBytes_accepts (ek : ErrKind) (b : Bytes) (hb : b.length ≤ maxLen) :
     Accepts (readBytes ek) (lenPrefixed b) b := by
-  have hr := inRange_of_le_maxAlloc hb
+  have hr := inRange_of_le_maxLen hb
   have hneg : ¬ ((b.length : Int) < 0) := by omega
   constructor
   · intro rest
     unfold readBytes lenPrefixed
     rw [List.append_assoc, ioVarint_write _ hr]
-    simp only [hneg, if_false, Step.bind_eq, makeBytes_ok hb, Step.bind_ok', Int.toNat_natCast, readFull_append, Step.pure_eq]
+    simp only [hneg, if_false, Int.toNat_natCast, readN_append]
   · intro j hj
     unfold readBytes lenPrefixed at *
     by_cases hjs : j < (writeVarint (b.length : Int)).length
     · rw [take_append_lt hjs, ioVarint_take _ hr _ hjs]
       exact ⟨ek, rfl⟩
     · rw [take_append_ge (by omega), ioVarint_write _ hr]
-      simp only [hneg, if_false, Step.bind_eq, makeBytes_ok hb, Step.bind_ok', Int.toNat_natCast]
-      rw [readFull_take b _ (by simp at hj; omega)]
+      simp only [hneg, if_false, Int.toNat_natCast]
+      obtain ⟨e, he⟩ := readN_take b (j - (writeVarint (b.length : Int)).length) (by simp at hj; omega)
+      rw [he]
       exact ⟨ek, rfl⟩
 
 theorem readEntries_accepts : ∀ (es : List (Bytes × Bytes)) (m : Meta), (∀ kv ∈ es, SmallEntry kv) →
@@ -295,7 +361,7 @@ theorem varintP_err {ek : ErrKind} {bs : Bytes} {e : ErrKind} (h : varintP ek bs
 
 /-- Well-formed metadata blocks: non-empty, every key and value of allocatable size. -/
 def GoodMetaBlocks (blocks : List (List (Bytes × Bytes))) : Prop :=
-  ∀ es ∈ blocks, es ≠ [] ∧ es.length ≤ maxAlloc ∧ ∀ kv ∈ es, SmallEntry kv
+  ∀ es ∈ blocks, es ≠ [] ∧ es.length ≤ maxLen ∧ ∀ kv ∈ es, SmallEntry kv
 
 theorem readMeta_accepts : ∀ (blocks : List (List (Bytes × Bytes))) (m : Meta) (fuel : Nat),
     GoodMetaBlocks blocks → blocks.length < fuel →
@@ -317,7 +383,7 @@ theorem readMeta_accepts : ∀ (blocks : List (List (Bytes × Bytes))) (m : Meta
     obtain ⟨hne, hlen, hsmall⟩ := hg es (by simp)
     have hg' : GoodMetaBlocks blocks := fun x hx => hg x (by simp [hx])
     have ih' := ih (es.reverse ++ m) fuel hg' (by simp at hf; omega)
-    have hr := inRange_of_le_maxAlloc hlen
+    have hr := inRange_of_le_maxLen hlen
     have hpos : 0 < es.length := by cases es with | nil => exact absurd rfl hne | cons _ _ => simp
     have hbytes : ((es :: blocks).map metaBlock).flatten ++ writeVarint 0 =
         writeVarint (es.length : Int) ++ (entriesBytes es ++ ((blocks.map metaBlock).flatten ++ writeVarint 0)) := by
@@ -416,7 +482,7 @@ it), and the declared numbers are representable / allocatable. -/
 structure GoodBlk (decomp : Bytes → Step Bytes) (decode : Bytes → Outcome (α × Bytes)) (b : Blk α) : Prop where
   decomp : decomp b.payload = .ok b.data
   exact : ∀ ve ∈ b.recs, ∀ rest, decode (ve.2 ++ rest) = .ok (ve.1, rest)
-  small : b.payload.length ≤ maxAlloc
+  small : b.payload.length ≤ maxLen
   count : b.recs.length < 2 ^ 63
 
 /-- The callback protocol on its own: hand over `vs` (global indices from `idx`) until the callback
@@ -472,26 +538,26 @@ theorem handOver_fail (cb : Nat → Option ε) (i : Nat) (e : ε) (hi : cb i = s
 /-! ### One iteration of the block loop -/
 
 /-- count, length and payload present: the head of the iteration yields them and leaves the rest -/
-theorem blockHead_raw (c : Int) (p X : Bytes) (hc : inRange 64 c) (hp : p.length ≤ maxAlloc) :
+theorem blockHead_raw (c : Int) (p X : Bytes) (hc : inRange 64 c) (hp : p.length ≤ maxLen) :
     blockHead (writeVarint c ++ (writeVarint p.length ++ p) ++ X) = .ok (some (c, p, X)) := by
-  have hr := inRange_of_le_maxAlloc hp
+  have hr := inRange_of_le_maxLen hp
   have hneg : ¬ ((p.length : Int) < 0) := by omega
   unfold blockHead
   simp only [List.append_assoc]
   rw [ioVarint_write _ hc]
   simp only
   rw [ioVarint_write _ hr]
-  simp only [hneg, if_false, Step.bind_eq, makeBytes_ok hp, Step.bind_ok', Int.toNat_natCast, readFull_append, Step.pure_eq]
+  simp only [hneg, if_false, Int.toNat_natCast, readN_append]
 
 /-- the file ends exactly before a block: the clean end -/
 theorem blockHead_nil : blockHead [] = .ok none := by
   simp [blockHead, ioVarint, ioUvarintAux]
 
 /-- the file ends inside count, length or payload: an error -/
-theorem blockHead_take (c : Int) (p : Bytes) (hc : inRange 64 c) (hp : p.length ≤ maxAlloc) (j : Nat)
+theorem blockHead_take (c : Int) (p : Bytes) (hc : inRange 64 c) (hp : p.length ≤ maxLen) (j : Nat)
     (h0 : 0 < j) (hj : j < (writeVarint c ++ (writeVarint p.length ++ p)).length) :
     ∃ e, blockHead ((writeVarint c ++ (writeVarint p.length ++ p)).take j) = .err e := by
-  have hr := inRange_of_le_maxAlloc hp
+  have hr := inRange_of_le_maxLen hp
   have hneg : ¬ ((p.length : Int) < 0) := by omega
   unfold blockHead
   by_cases h1 : j < (writeVarint c).length
@@ -505,8 +571,10 @@ theorem blockHead_take (c : Int) (p : Bytes) (hc : inRange 64 c) (hp : p.length 
     · rw [take_append_lt h2, ioVarint_take _ hr _ h2]
       exact ⟨_, rfl⟩
     · rw [take_append_ge (by omega), ioVarint_write _ hr]
-      simp only [hneg, if_false, Step.bind_eq, makeBytes_ok hp, Step.bind_ok', Int.toNat_natCast]
-      rw [readFull_take p _ (by simp only [List.length_append] at hj; omega)]
+      simp only [hneg, if_false, Int.toNat_natCast]
+      obtain ⟨e, he⟩ := readN_take p (j - (writeVarint c).length - (writeVarint (p.length : Int)).length)
+        (by simp only [List.length_append] at hj; omega)
+      rw [he]
       exact ⟨_, rfl⟩
 
 /-- the record loop on a block whose records decode exactly -/
@@ -572,7 +640,7 @@ theorem readBlocks_frame (cfg : Cfg α ε) (fuel idx : Nat) (b : Blk α) (X : By
   exact blockTail_good cfg _ b X idx hb hs
 
 /-- a raw block (any count, any payload) followed by `X`: the head parses, the rest is `blockTail` -/
-theorem readBlocks_raw (cfg : Cfg α ε) (fuel idx : Nat) (c : Int) (p X : Bytes) (hc : inRange 64 c) (hp : p.length ≤ maxAlloc) :
+theorem readBlocks_raw (cfg : Cfg α ε) (fuel idx : Nat) (c : Int) (p X : Bytes) (hc : inRange 64 c) (hp : p.length ≤ maxLen) :
     readBlocks cfg (fuel + 1) (writeVarint c ++ (writeVarint p.length ++ p) ++ X) idx =
       blockTail cfg (readBlocks cfg fuel) c p X idx := by
   rw [readBlocks, blockHead_raw _ _ _ hc hp]
@@ -823,80 +891,65 @@ theorem readFile_header_cut {X : Ext α} {fuel : Nat} {hdr : Bytes} {H : Header}
 /-- the record decoder returns a value or an error (what C03/C06 establish for the codec model) -/
 def Tame (decode : Bytes → Outcome (α × Bytes)) : Prop := ∀ bs, (∃ r, decode bs = .ok r) ∨ decode bs = .err
 
-theorem makeBytes_panic {n : Int} {k : PanicKind} (hn : ¬ n < 0) (h : makeBytes n = .panic k) : k = .hugeMake := by
-  unfold makeBytes at h
-  simp only [hn, if_false] at h
-  split at h
-  · cases h; rfl
-  · cases h
+theorem readBytes_no_panic (ek : ErrKind) (bs : Bytes) (k : PanicKind) : readBytes ek bs ≠ .panic k := by
+  unfold readBytes
+  split
+  · simp
+  · split
+    · simp
+    · split <;> simp
 
-theorem readBytes_panic {ek : ErrKind} {bs : Bytes} {k : PanicKind} (h : readBytes ek bs = .panic k) : k = .hugeMake := by
-  unfold readBytes at h
-  split at h
-  · cases h
-  · split at h
-    · cases h
-    · rename_i hl
-      cases hm : makeBytes _ with
-      | ok u =>
-        rw [hm] at h
-        simp only [Step.bind_eq, Step.bind_ok'] at h
-        split at h <;> cases h
-      | err e => rw [hm] at h; cases h
-      | panic k' => rw [hm] at h; simp only [Step.bind_eq, Step.bind_panic'] at h; cases h; exact makeBytes_panic hl hm
-      | fuel => rw [hm] at h; cases h
-
-theorem readEntries_panic : ∀ (n : Nat) (bs : Bytes) (m : Meta) (k : PanicKind), readEntries n bs m = .panic k → k = .hugeMake := by
+theorem readEntries_no_panic : ∀ (n : Nat) (bs : Bytes) (m : Meta) (k : PanicKind), readEntries n bs m ≠ .panic k := by
   intro n
   induction n with
-  | zero => intro bs m k h; cases h
+  | zero => intro bs m k; simp [readEntries]
   | succ n ih =>
-    intro bs m k h
-    simp only [readEntries, Step.bind_eq] at h
+    intro bs m k
+    simp only [readEntries, Step.bind_eq]
     cases h1 : readBytes .metaKey bs with
     | ok x =>
-      rw [h1] at h; simp only [Step.bind_ok'] at h
+      simp only [Step.bind_ok']
       cases h2 : readBytes .metaVal x.2 with
-      | ok y => rw [h2] at h; simp only [Step.bind_ok'] at h; exact ih _ _ _ h
-      | err e => rw [h2] at h; cases h
-      | panic k' => rw [h2] at h; cases h; exact readBytes_panic h2
-      | fuel => rw [h2] at h; cases h
-    | err e => rw [h1] at h; cases h
-    | panic k' => rw [h1] at h; cases h; exact readBytes_panic h1
-    | fuel => rw [h1] at h; cases h
+      | ok y => simp only [Step.bind_ok']; exact ih _ _ _
+      | err e => simp
+      | panic k' => exact absurd h2 (readBytes_no_panic _ _ _)
+      | fuel => simp
+    | err e => simp
+    | panic k' => exact absurd h1 (readBytes_no_panic _ _ _)
+    | fuel => simp
 
-theorem readMeta_panic : ∀ (fuel : Nat) (bs : Bytes) (m : Meta) (k : PanicKind), readMeta fuel bs m = .panic k → k = .hugeMake := by
+theorem readMeta_no_panic : ∀ (fuel : Nat) (bs : Bytes) (m : Meta) (k : PanicKind), readMeta fuel bs m ≠ .panic k := by
   intro fuel
   induction fuel with
-  | zero => intro bs m k h; cases h
+  | zero => intro bs m k; simp [readMeta]
   | succ fuel ih =>
-    intro bs m k h
-    simp only [readMeta] at h
-    split at h
-    · cases h
-    · split at h
-      · cases h
-      · split at h
-        · cases h
-        · simp only [Step.bind_eq] at h
+    intro bs m k
+    simp only [readMeta]
+    split
+    · simp
+    · split
+      · simp
+      · split
+        · simp
+        · simp only [Step.bind_eq]
           cases h1 : readEntries _ _ m with
-          | ok x => rw [h1] at h; exact ih _ _ _ h
-          | err e => rw [h1] at h; cases h
-          | panic k' => rw [h1] at h; cases h; exact readEntries_panic _ _ _ _ h1
-          | fuel => rw [h1] at h; cases h
+          | ok x => simp only [Step.bind_ok']; exact ih _ _ _
+          | err e => simp
+          | panic k' => exact absurd h1 (readEntries_no_panic _ _ _ _)
+          | fuel => simp
 
-theorem readFileHeader_panic {fuel : Nat} {bs : Bytes} {k : PanicKind} (h : readFileHeader fuel bs = .panic k) : k = .hugeMake := by
-  unfold readFileHeader at h
-  split at h
-  · cases h
-  · split at h
-    · cases h
-    · simp only [Step.bind_eq] at h
+theorem readFileHeader_no_panic (fuel : Nat) (bs : Bytes) (k : PanicKind) : readFileHeader fuel bs ≠ .panic k := by
+  unfold readFileHeader
+  split
+  · simp
+  · split
+    · simp
+    · simp only [Step.bind_eq]
       cases h1 : readMeta fuel _ [] with
-      | ok x => rw [h1] at h; simp only [Step.bind_ok'] at h; split at h <;> cases h
-      | err e => rw [h1] at h; cases h
-      | panic k' => rw [h1] at h; cases h; exact readMeta_panic _ _ _ _ h1
-      | fuel => rw [h1] at h; cases h
+      | ok x => simp only [Step.bind_ok']; split <;> simp
+      | err e => simp
+      | panic k' => exact absurd h1 (readMeta_no_panic _ _ _ _)
+      | fuel => simp
 
 /-- `decompress` never panics: the length guard protects the two slice expressions. -/
 theorem decompress_no_panic (X : Ext α) (sel : CodecSel) (c : Bytes) (k : PanicKind) : decompress X sel c ≠ .panic k := by
@@ -914,21 +967,16 @@ theorem decompress_no_panic (X : Ext α) (sel : CodecSel) (c : Bytes) (k : Panic
       · simp
       · split <;> simp
 
-theorem blockHead_panic {bs : Bytes} {k : PanicKind} (h : blockHead bs = .panic k) : k = .hugeMake := by
-  unfold blockHead at h
-  split at h
-  · cases h
-  · cases h
-  · split at h
-    · cases h
-    · split at h
-      · cases h
-      · rename_i hl
-        cases hm : makeBytes _ with
-        | ok u => rw [hm] at h; simp only [Step.bind_eq, Step.bind_ok'] at h; split at h <;> cases h
-        | err e => rw [hm] at h; cases h
-        | panic k' => rw [hm] at h; cases h; exact makeBytes_panic hl hm
-        | fuel => rw [hm] at h; cases h
+theorem blockHead_no_panic (bs : Bytes) (k : PanicKind) : blockHead bs ≠ .panic k := by
+  unfold blockHead
+  split
+  · simp
+  · simp
+  · split
+    · simp
+    · split
+      · simp
+      · split <;> simp
 
 theorem deliver_panic (decode : Bytes → Outcome (α × Bytes)) (cb : Nat → Option ε) (ht : Tame decode) :
     ∀ (n : Nat) (buf : Bytes) (idx : Nat) (k : PanicKind), (deliver decode cb n buf idx).2 ≠ some (.panic k) := by
@@ -945,41 +993,40 @@ theorem deliver_panic (decode : Bytes → Outcome (α × Bytes)) (cb : Nat → O
       | none => exact ih _ _ _
     · rw [hr]; simp
 
-theorem blockTail_panic (cfg : Cfg α ε) (hd : ∀ c k, cfg.decomp c ≠ .panic k) (ht : Tame cfg.decode)
-    (next : Bytes → Nat → Out α ε) (hn : ∀ bs idx k, (next bs idx).res = .panic k → k = .hugeMake)
-    (count : Int) (comp r3 : Bytes) (idx : Nat) (k : PanicKind)
-    (h : (blockTail cfg next count comp r3 idx).res = .panic k) : k = .hugeMake := by
-  unfold blockTail at h
-  split at h
-  · cases h
+theorem blockTail_no_panic (cfg : Cfg α ε) (hd : ∀ c k, cfg.decomp c ≠ .panic k) (ht : Tame cfg.decode)
+    (next : Bytes → Nat → Out α ε) (hn : ∀ bs idx k, (next bs idx).res ≠ .panic k)
+    (count : Int) (comp r3 : Bytes) (idx : Nat) (k : PanicKind) :
+    (blockTail cfg next count comp r3 idx).res ≠ .panic k := by
+  unfold blockTail
+  split
+  · simp
   · rename_i k' hk'; exact absurd hk' (hd _ _)
-  · cases h
-  · split at h
+  · simp
+  · split
     · rename_i data _ _ ds res hdl
       have := deliver_panic cfg.decode cfg.cb ht count.toNat data idx k
       rw [hdl] at this
-      simp only at h
-      subst h; exact absurd rfl this
-    · split at h
-      · cases h
-      · split at h
-        · cases h
-        · exact hn _ _ _ h
+      intro h; simp only at h; subst h; exact this rfl
+    · split
+      · simp
+      · split
+        · simp
+        · exact hn _ _ _
 
-theorem readBlocks_panic (cfg : Cfg α ε) (hd : ∀ c k, cfg.decomp c ≠ .panic k) (ht : Tame cfg.decode) :
-    ∀ (fuel : Nat) (bs : Bytes) (idx : Nat) (k : PanicKind), (readBlocks cfg fuel bs idx).res = .panic k → k = .hugeMake := by
+theorem readBlocks_no_panic (cfg : Cfg α ε) (hd : ∀ c k, cfg.decomp c ≠ .panic k) (ht : Tame cfg.decode) :
+    ∀ (fuel : Nat) (bs : Bytes) (idx : Nat) (k : PanicKind), (readBlocks cfg fuel bs idx).res ≠ .panic k := by
   intro fuel
   induction fuel with
-  | zero => intro bs idx k h; cases h
+  | zero => intro bs idx k; simp [readBlocks]
   | succ fuel ih =>
-    intro bs idx k h
-    simp only [readBlocks] at h
-    split at h
-    · cases h
-    · rename_i k' hk'; cases h; exact blockHead_panic hk'
-    · cases h
-    · cases h
-    · exact blockTail_panic cfg hd ht _ ih _ _ _ _ _ h
+    intro bs idx k
+    simp only [readBlocks]
+    split
+    · simp
+    · rename_i k' hk'; exact absurd hk' (blockHead_no_panic _ _)
+    · simp
+    · simp
+    · exact blockTail_no_panic cfg hd ht _ ih _ _ _ _ _
 
 end
 
@@ -1010,10 +1057,9 @@ theorem readFull_length {n : Nat} {bs a r : Bytes} (h : readFull n bs = .ok (a, 
   have := (readFull_ok_length h).2
   rw [this]; simp
 
-theorem makeBytes_ne_fuel (n : Int) : makeBytes n ≠ .fuel := by
-  unfold makeBytes; split
-  · simp
-  · split <;> simp
+theorem readN_length {n : Nat} {bs a r : Bytes} (h : readN n bs = .ok (a, r)) : r.length ≤ bs.length := by
+  have := (readN_ok_length h).2
+  rw [this]; simp
 
 theorem readBytes_ne_fuel (ek : ErrKind) (bs : Bytes) : readBytes ek bs ≠ .fuel := by
   unfold readBytes
@@ -1021,11 +1067,7 @@ theorem readBytes_ne_fuel (ek : ErrKind) (bs : Bytes) : readBytes ek bs ≠ .fue
   · simp
   · split
     · simp
-    · cases hm : makeBytes _ with
-      | ok u => simp only [Step.bind_eq, Step.bind_ok']; split <;> simp
-      | err e => simp
-      | panic k => simp
-      | fuel => exact absurd hm (makeBytes_ne_fuel _)
+    · split <;> simp
 
 theorem readBytes_length {ek : ErrKind} {bs v r : Bytes} (h : readBytes ek bs = .ok (v, r)) : r.length < bs.length := by
   unfold readBytes at h
@@ -1035,20 +1077,13 @@ theorem readBytes_length {ek : ErrKind} {bs v r : Bytes} (h : readBytes ek bs = 
     have h1 := ioVarint_length hv
     split at h
     · cases h
-    · cases hm : makeBytes l with
-      | ok u =>
-        rw [hm] at h
-        simp only [Step.bind_eq, Step.bind_ok'] at h
-        split at h
-        · rename_i v' r' hf
-          have := readFull_length hf
-          simp only [Step.pure_eq, Step.ok.injEq, Prod.mk.injEq] at h
-          obtain ⟨_, rfl⟩ := h
-          omega
-        · cases h
-      | err e => rw [hm] at h; cases h
-      | panic k => rw [hm] at h; cases h
-      | fuel => rw [hm] at h; cases h
+    · split at h
+      · rename_i v' r' hf
+        have := readN_length hf
+        simp only [Step.ok.injEq, Prod.mk.injEq] at h
+        obtain ⟨_, rfl⟩ := h
+        omega
+      · cases h
 
 theorem readEntries_fuel : ∀ (n : Nat) (bs : Bytes) (m : Meta), readEntries n bs m ≠ .fuel ∧
     ∀ m' r, readEntries n bs m = .ok (m', r) → r.length ≤ bs.length := by
@@ -1139,19 +1174,13 @@ theorem blockHead_fuel (bs : Bytes) : blockHead bs ≠ .fuel ∧
       have l2 := ioVarint_length h2
       split
       · simp
-      · cases hm : makeBytes l with
-        | ok u =>
-          simp only [Step.bind_eq, Step.bind_ok']
-          split
-          · simp
-          · rename_i comp r3 hf
-            have l3 := readFull_length hf
-            exact ⟨by simp, fun c' comp' r3' h => by
-              simp only [Step.pure_eq, Step.ok.injEq, Option.some.injEq, Prod.mk.injEq] at h
-              obtain ⟨_, _, rfl⟩ := h; omega⟩
-        | err e => simp
-        | panic k => simp
-        | fuel => exact absurd hm (makeBytes_ne_fuel _)
+      · split
+        · simp
+        · rename_i comp r3 hf
+          have l3 := readN_length hf
+          exact ⟨by simp, fun c' comp' r3' h => by
+            simp only [Step.ok.injEq, Option.some.injEq, Prod.mk.injEq] at h
+            obtain ⟨_, _, rfl⟩ := h; omega⟩
 
 theorem decompress_ne_fuel {α : Type} (X : Ext α) (sel : CodecSel) (c : Bytes) : decompress X sel c ≠ .fuel := by
   cases sel with
